@@ -31,6 +31,7 @@ structure SupplyScan where
   bridgeZero : Bool := true
   blocks : Nat := 0
   minted : Nat := 0
+  lastT : Int := 0
   note : String := ""
 
 /-- replays the documented events through the supply model and compares with the observed supply per block -/
@@ -51,14 +52,27 @@ def scanSupply (out : String) : SupplyScan :=
         let inv := getF fs "inv" == some "ok"
         let bz := getF fs "bridge" == some "0"
         match sc.st with
-        | none => { sc with st := some { supply := obs, mint := {} }, blocks := sc.blocks + 1, invOk := sc.invOk && inv, bridgeZero := sc.bridgeZero && bz }
+        | none => { sc with st := some { supply := obs, mint := {} }, lastT := t, blocks := sc.blocks + 1, invOk := sc.invOk && inv, bridgeZero := sc.bridgeZero && bz }
         | some st =>
           let (st', minted) := block st t evs
           let good := st'.supply == obs
-          { sc with st := some { st' with supply := obs }, ok := sc.ok && good, blocks := sc.blocks + 1,
+          { sc with st := some { st' with supply := obs }, lastT := t, ok := sc.ok && good, blocks := sc.blocks + 1,
                     minted := sc.minted + (if minted > 0 then 1 else 0), invOk := sc.invOk && inv, bridgeZero := sc.bridgeZero && bz,
                     note := if good || sc.note != "" then sc.note else s!"h={(getF fs "h").getD "?"} predicted={st'.supply} observed={obs}" }
       | _, _ => { sc with halted := true, note := if sc.note == "" then rec.take 120 |>.toString else sc.note }
+    else if rec.startsWith "SKIP " then
+      -- n unobserved empty blocks of dt ms each: the model mints block by block (truncation per block)
+      let fs := fieldsOf rec
+      let n := ((getF fs "n").bind parseNat?).getD 0
+      let dt := ((getF fs "dt").bind parseInt?).getD 0
+      match sc.st with
+      | none => sc
+      | some st =>
+        let t0 := sc.lastT
+        let (st', tEnd) := (List.range n).foldl (fun (acc : St × Int) _ =>
+          let t := acc.2 + dt * 1000000
+          ((block acc.1 t []).1, t)) (st, t0)
+        { sc with st := some st', lastT := tEnd, blocks := sc.blocks + n }
     else if rec.startsWith "harnesspanic" then { sc with halted := true, note := rec.take 120 |>.toString }
     else sc) {}
 
@@ -91,5 +105,31 @@ def runEscrow (_inp : List String) (out : String) : Option Res :=
        if good || note != "" then note else s!"h={(getF fs "h").getD "?"} oracle={o} qsum={q} tips={t} tipsum={ts} bridge={b}", blocks + 1)
     | _, _, _, _, _ => (ok, paid, note, blocks)) (true, 0, "", 0)
   some { agree := true, monitor := ok, nontrivial := decide (paid ≥ 1 ∧ blocks ≥ 10), model := "", note := note }
+
+/-- C14 end to end: per claim transaction (alone in its block) — accepted: recipients receive minted − tips, the claimer
+the tips (minus the 5000 loya fee); rejected: nobody receives anything; over the history no deposit id is accepted
+twice; the supply follows the documented events (claims included) and no block fails -/
+def runDeposit (_inp : List String) (out : String) : Option Res :=
+  let sc := scanSupply out
+  let recs := (out.splitOn " ;; ").filter (fun r => r.startsWith "D ")
+  let (ok, okIds, note) := recs.foldl (fun (acc : Bool × List String × String) rec =>
+    let (ok, okIds, note) := acc
+    let fs := fieldsOf rec
+    let res := (getF fs "res").getD ""
+    let ids := commaList ((getF fs "ids").getD "")
+    let claimer := (parseInt? ((getF fs "claimer").getD "0")).getD 0
+    let rcp := (parseInt? ((getF fs "recipients").getD "0")).getD 0
+    let (minted, tips) := match ((getF fs "expect").getD "0:0").splitOn ":" with
+      | [a, b] => ((parseInt? a).getD 0, (parseInt? b).getD 0) | _ => (0, 0)
+    let single := (getF fs "single") == some "true"
+    if res == "ok" then
+      let dup := ids.any (fun i => okIds.contains i) || ids.eraseDups.length != ids.length
+      let amountsOk := !single || (rcp == minted - tips && claimer == tips - 5000)
+      (ok && !dup && amountsOk, okIds ++ ids, if !dup && amountsOk || note != "" then note else s!"claim: {rec}")
+    else
+      let quiet := !single || (rcp == 0 && claimer == -5000)
+      (ok && quiet, okIds, if quiet || note != "" then note else s!"rejected claim moved funds: {rec}")) (true, [], "")
+  some { agree := sc.ok, monitor := ok && sc.ok && sc.invOk && !sc.halted && !sc.rejected, nontrivial := !okIds.isEmpty, model := "",
+         note := if note != "" then note else sc.note }
 
 end Driver
